@@ -40,6 +40,9 @@ THEOREMS = [
     "KrroodVerif.OrmGen.C06_full",
     "KrroodVerif.OrmGen.C06_names_injective",
     "KrroodVerif.OrmGen.C06_assoc_fk_distinct",
+    "KrroodVerif.OrmGen.assocName_injective",
+    "KrroodVerif.OrmGen.assocName_length",
+    "KrroodVerif.OrmGen.generated_name_lengths",
     "KrroodVerif.OrmGen.C06_complete",
     "KrroodVerif.OrmGen.C06_model_meets_spec",
     "KrroodVerif.OrmGen.C06_perm_invariant",
@@ -66,7 +69,8 @@ ASSUMPTIONS = [
 ]
 RULE = ("random models over the grammar of the property text (1-6 dataclasses; scalars, Optional scalars, enums, "
         "datetimes, lists of builtins, (Optional) references, collections, single and multi-level inheritance, self and "
-        "mutual references, several collections of one target, overridden fields, private fields, shuffled declaration "
+        "mutual references, several collections of one target, overridden fields, private fields, short names and long "
+        "descriptive names (classes 30-45, fields 20-40 characters, long common prefixes), shuffled declaration "
         "and registration order, with/without `from __future__ import annotations`; every third model and a fixed family "
         "spread over 2-3 modules whose cross-module names are visible under TYPE_CHECKING only), each generated, imported, "
         "configured, created and inspected in a fresh subprocess and regenerated under another PYTHONHASHSEED and class "
@@ -80,11 +84,23 @@ FIELD_NAMES = ["a", "b", "c", "x", "y", "z", "size", "title", "count", "flag", "
                "items", "parts", "left", "right", "owner", "tag", "kind", "level", "when", "color", "mass", "first",
                "second", "other", "peers", "nodes"]
 PRIVATE_NAMES = ["_cache", "_tmp", "_hidden", "_x"]
+# descriptive long names (class names of 30-45 characters, field names of 20-40 characters) that share long prefixes:
+# generated identifiers must stay injective in (class, field) whatever the length of the names
+LONG_CLASS_NAMES = [stem + tail
+                    for stem in ["EnvironmentalMonitoringStation", "AutonomousWarehouseTransportVehicle",
+                                 "HierarchicalTaskNetworkPlannerNode", "SemanticEnvironmentAnnotationRecord",
+                                 "KinematicChainConfigurationSnapshot"]
+                    for tail in ["", "Cluster", "Registry", "Archive"]]
+LONG_FIELD_NAMES = [pre + mid + tail
+                    for pre in ["temperature_sensors_", "registered_observation_channels_", "kinematic_chain_segments_"]
+                    for mid in ["", "indoor_", "outdoor_"]
+                    for tail in ["primary", "secondary", "backup", "north", "south"]
+                    if 20 <= len(pre + mid + tail) <= 40]
 ENUM_NAMES = ["Color", "Mode", "Grade"]
 
 
 def budget(tier: str) -> int:
-    return 64 if tier == "quick" else 1500
+    return 44 if tier == "quick" else 1500
 
 
 # ------------------------------------------------------------------------------------------------ case syntax
@@ -591,11 +607,13 @@ def _topo_shuffle(rng, classes):
 
 def _random_model(rng, shape: str) -> dict:
     n = rng.choice([1, 2, 2, 3, 3, 3, 4, 4, 5, 6])
-    if shape in ("mutual", "multi-coll", "deep") and n < 2:
+    if shape in ("mutual", "multi-coll", "deep", "long-names") and n < 2:
         n = 2
     if shape == "deep" and n < 3:
         n = 3
-    names = rng.sample(CLASS_NAMES, n)
+    # descriptive long class / field names (always in the shape `long-names`, now and then in every other shape)
+    long_names = shape == "long-names" or rng.random() < 0.12
+    names = rng.sample(LONG_CLASS_NAMES if long_names else CLASS_NAMES, n)
     enums = rng.sample(ENUM_NAMES, rng.choice([0, 1, 1, 2]))
     classes = []
     for i, nm in enumerate(names):
@@ -619,7 +637,7 @@ def _random_model(rng, shape: str) -> dict:
 
     for c in classes:
         k = rng.choice([0, 1, 2, 2, 3, 3, 4, 5])
-        pool = [f for f in FIELD_NAMES]
+        pool = [f for f in (LONG_FIELD_NAMES if long_names else FIELD_NAMES)]
         rng.shuffle(pool)
         inh = inherited(c)
         used = set()
@@ -667,6 +685,15 @@ def _random_model(rng, shape: str) -> dict:
         a, b = classes[0], classes[1]
         for fn in rng.sample(["firsts", "seconds", "thirds"], rng.choice([2, 3])):
             a["fields"].append((fn, "l", b["name"]))
+    if shape == "long-names":
+        # several collections of one class whose names differ only near their end
+        a = rng.choice(classes)
+        pre = rng.choice(["temperature_sensors_", "registered_observation_channels_", "kinematic_chain_segments_"])
+        group = [f for f in LONG_FIELD_NAMES if f.startswith(pre)]
+        others = [x["name"] for x in classes if x is not a]
+        tgt = rng.choice(others)
+        for fn in rng.sample(group, rng.choice([2, 3, 4])):
+            a["fields"].append((fn, "l", tgt if rng.random() < 0.7 else rng.choice(others)))
     if shape == "self-ref":
         c = rng.choice(classes)
         c["fields"].append(("previous", rng.choice(["r", "or"]), c["name"]))
@@ -700,7 +727,7 @@ def _random_model(rng, shape: str) -> dict:
     return {"fut": rng.random() < 0.5, "ord": order, "ord2": order2, "enums": sorted(enums), "classes": decl}
 
 
-SHAPES = ["plain", "plain", "plain", "deep", "mutual", "multi-coll", "self-ref", "plain", "deep", "no-builtin",
+SHAPES = ["plain", "plain", "long-names", "deep", "mutual", "multi-coll", "self-ref", "plain", "deep", "no-builtin",
           "plain", "self-coll"]
 
 
@@ -756,8 +783,35 @@ SPLIT_FAMILY = [
 ]
 
 
+# A fixed family about identifier length: long descriptive names whose `<daoname>_<field>` agree in their first 51 (and
+# more) characters, several collections of one class, of one and of two targets, with inheritance.
+NAME_FAMILY = [
+    "(m (fut F) (ord EnvironmentalMonitoringStation Sensor) (ord2 Sensor EnvironmentalMonitoringStation) (enums) "
+    "(c Sensor - (serial_number s str) (calibrated s bool)) (c EnvironmentalMonitoringStation - (title s str) "
+    "(temperature_sensors_indoor l Sensor) (temperature_sensors_outdoor l Sensor) (backup or Sensor)))",
+    "(m (fut T) (ord AutonomousWarehouseTransportVehicleRegistry AutonomousWarehouseTransportVehicle "
+    "AutonomousWarehouseTransportVehicleCluster) (ord2 AutonomousWarehouseTransportVehicleCluster "
+    "AutonomousWarehouseTransportVehicleRegistry AutonomousWarehouseTransportVehicle) (enums) "
+    "(c AutonomousWarehouseTransportVehicle - (count s int) "
+    "(registered_observation_channels_indoor_primary l AutonomousWarehouseTransportVehicleCluster)) "
+    "(c AutonomousWarehouseTransportVehicleCluster AutonomousWarehouseTransportVehicle "
+    "(registered_observation_channels_indoor_backup l AutonomousWarehouseTransportVehicle) "
+    "(registered_observation_channels_outdoor_backup l AutonomousWarehouseTransportVehicleRegistry)) "
+    "(c AutonomousWarehouseTransportVehicleRegistry - (kinematic_chain_segments_primary or "
+    "AutonomousWarehouseTransportVehicle) (kinematic_chain_segments_secondary or AutonomousWarehouseTransportVehicle) "
+    "(kinematic_chain_segments_north l AutonomousWarehouseTransportVehicle) "
+    "(kinematic_chain_segments_south l AutonomousWarehouseTransportVehicle)))",
+]
+
+
 def _tags(d: dict, shape: str):
     tags = [shape, "classes=%d" % len(d["classes"]), "fut" if d["fut"] else "nofut"]
+    longest = max([len("%sdao_%s_association" % (c["name"], n)) for c in d["classes"] for n, k, _ in c["fields"]
+                   if k == "l"] or [0])
+    if longest > 63:
+        tags.append("assoc-name-longer-than-63")
+    if max(len(c["name"]) for c in d["classes"]) >= 30:
+        tags.append("long-class-names")
     kinds = {k for c in d["classes"] for _, k, _ in c["fields"]}
     tags += ["kind:" + k for k in sorted(kinds)]
     if any(c["base"] for c in d["classes"]):
@@ -772,6 +826,7 @@ def _tags(d: dict, shape: str):
 
 def generate(rng, tier, n):
     cases = [Case(show_case(parse_case(l)), _tags(parse_case(l), "split-family"), "exhaustive") for l in SPLIT_FAMILY]
+    cases += [Case(show_case(parse_case(l)), _tags(parse_case(l), "name-family"), "exhaustive") for l in NAME_FAMILY]
     for i in range(n):
         shape = SHAPES[i % len(SHAPES)] if i < 2 * len(SHAPES) else rng.choice(SHAPES)
         d = _random_model(rng, shape)
